@@ -154,7 +154,9 @@ func DeactivatePayload(signer *keys.Key, suffix, reveal string, w Window) M {
 }
 
 // Sign produces the compact JWS of the payload under the key with the standard header.
-func Sign(signer *keys.Key, payload M) string { return signer.SignCompact(signer.Header(), Canon(payload)) }
+func Sign(signer *keys.Key, payload M) string {
+	return signer.SignCompact(signer.Header(), Canon(payload))
+}
 
 func Request(typ, suffix, reveal, signedData string, delta M) M {
 	m := M{"type": typ, "didSuffix": suffix, "revealValue": reveal, "signedData": signedData}
